@@ -196,6 +196,8 @@ def _tensor(ctx, p, rng):
     # result_i = sum_j Gamma[i,j] * c_j with c_j the exact d-th Taylor coefficient along ray j: scale_i = sum_j |Gamma[i,j]| |c_j|
     total = sum(poly.partial(a).absval(xq) / math.prod(math.factorial(k) for k in a) for a in J)
     Gm, rays = EI.generate_Gamma_and_rays(N, d)
+    if not np.all(np.isfinite(np.asarray(Gm, dtype=float))):
+        ctx.violation('tensor:interpolation-matrix-nonfinite', {'N': N, 'd': d}); return
     part = {a: poly.partial(a)(xq) / math.prod(math.factorial(k) for k in a) for a in J}
     cj = [sum(part[a] * math.prod(Fraction(int(r[n])) ** a[n] for n in range(N)) for a in J) for r in np.asarray(rays)]
     scales = [sum(abs(Fraction(float(Gm[i, j]))) * abs(cj[j]) for j in range(len(J))) + total * Fraction(1, 10 ** 6) for i in range(len(J))]
